@@ -952,6 +952,9 @@ def compose_scope(res, pid, rng, tier):
                 base.undo = undo
                 if undo:
                     base.ip = False
+                if subset[1] and r % 5 < 4 and not undo:
+                    # host-bit counts at and around the IPv4 width: the IPv6 stage has its own width
+                    base.b4, base.b6 = [(32, 32), (32, 64), (31, 32), (8, 128)][r % 5]
                 if base.words is not None and r % 2:
                     # words that also occur in what earlier stages write (place holders, hex digits)
                     base.words = list(base.words) + ["net", "move", "conan"]
